@@ -163,6 +163,23 @@ def semSqRowZ (cb : Bool) (N : Nat) (data : Nat → Rat) (idx : List Int) (off :
   ((idx.map fun k => (trigZ cb N data off j k - m) * (trigZ cb N data off j k - m)).sum
      / ((idx.length : Rat) - 1)) / (idx.length : Rat)
 
+/-! ## recordings stored in an integer dtype
+
+`__init__` stacks the recording with float64 zeros (`np.hstack([zeros_before, data, zeros_after])`), so the working
+copy holds the EXACT embedding of the stored integers (every int16/int32/uint8/uint16 value, and every int64 value of
+magnitude < 2^53, is a binary64 value); the Events branch converts the windows likewise (repaired in /repo cb45faf).
+`trigWrap` is the variant in which the subtraction `event_trig -= event_trig[0]` is done IN an unsigned dtype of `bits`
+bits (a working copy padded in the recording's own dtype): it wraps modulo 2^bits. -/
+
+/-- exact embedding of stored integers into the working precision -/
+def embedInt (d : Nat → Int) : Nat → Rat := fun i => ((d i : Int) : Rat)
+
+def trigWrap (bits : Nat) (cb : Bool) (d : Nat → Int) (off j k : Nat) : Int :=
+  if cb then (d (k + off + j) - d (k + off)) % (2 ^ bits : Int) else d (k + off + j)
+
+def etaRowWrap (bits : Nat) (cb : Bool) (d : Nat → Int) (idx : List Nat) (off j : Nat) : Rat :=
+  meanOver idx (fun k => ((trigWrap bits cb d off j k : Int) : Rat))
+
 /-- `(events.time / sampling_interval).astype(int)`: binary64 quotient of the two int64 picosecond
     values, truncated toward zero -/
 def eventIndex (timePs siPs : Int) : Int :=
@@ -232,6 +249,15 @@ def nPadOf (j : Job) : Nat := j.off.toNat + j.N + j.L
 
 /-- `event_types` of channel `ch` -/
 def typesOf (j : Job) (ch : Nat) : List Int := eventTypes ((List.range (nPadOf j)).map (evOf j ch))
+
+/-- the eta values of row `ch` for a given list of event types (the rows of the result that belong to channel `ch`) -/
+def etaBlock (j : Job) (types : List Int) (ch : Nat) : List Rat :=
+  types.flatMap fun t => (List.range j.L).map fun jj =>
+    etaRow j.cb (dataOf j ch) (positions (nPadOf j) (evOf j ch) t) j.off.toNat jj
+
+/-- VARIANT (not today's code): `np.unique(self.events)` taken once over ALL rows -- the union of the rows' code sets -/
+def typesUnion (j : Job) : List Int :=
+  eventTypes ((List.range (max j.nch 1)).flatMap fun ch => (List.range (nPadOf j)).map (evOf j ch))
 
 /-- a window of some event would leave the padded array (numpy IndexError) -/
 def windowBad (j : Job) : Bool :=
@@ -416,6 +442,25 @@ def handle (args : List String) : String :=
   | ["planted", off, L, ev, codes, resp] =>
     match off.toNat?, L.toNat?, parseIntList? ev, parseIntList? codes, parseFloatList? resp with
     | some off, some L, some evl, some codes, some resp => runPlanted off L evl codes (resp.map F64.ofFloat)
+    | _, _, _, _, _ => "bad-args"
+  -- etarows <job>: the eta of an event-coded series input, row by row through `etaBlock` with the row's OWN types
+  | "etarows" :: rest =>
+    match parseJob? rest with
+    | some j =>
+      if j.off < 0 then "err ValueError" else
+      "ok " ++ joinList ((List.range (max j.nch 1)).flatMap fun ch => (etaBlock j (typesOf j ch) ch).map showRatAsFloat)
+    | none => "bad-args"
+  -- etaint <bits> <cb> <off> <L> <events> <stored integers>: eta of a 1-d recording stored in an integer dtype, from the
+  -- exact embedding (bits = 0) or with the baseline subtraction wrapping modulo 2^bits (variant)
+  | ["etaint", bits, cb, off, L, ev, d] =>
+    match bits.toNat?, off.toNat?, L.toNat?, parseIntList? ev, parseIntList? d with
+    | some bits, some off, some L, some evl, some dl =>
+      let eva := evl.toArray
+      let da := dl.toArray
+      let vals := (eventTypes evl).flatMap fun t => (List.range L).map fun jj =>
+        if bits = 0 then etaRow (cb = "1") (embedInt (getI da)) (positions eva.size (getI eva) t) off jj
+        else etaRowWrap bits (cb = "1") (getI da) (positions eva.size (getI eva) t) off jj
+      "ok " ++ joinList (vals.map showRatAsFloat)
     | _, _, _, _, _ => "bad-args"
   | ["types", ev] =>
     match parseIntList? ev with
